@@ -32,6 +32,14 @@ def gen(rng, tier):
         if case["via_cli"]:
             # any positive --popsize is legal on the command line: validation raises it to 10 x samples
             case["popsize"] = rng.choice([1, 3, max(1, 2 * nsamp - 1), 15, 40])
+        # an earlier simulation in the same process on the same map files (a --region run ending mid-chromosome):
+        # whatever it leaves behind must not show in this run's output
+        case["prelude"] = None
+        if not case["region"] and rng.random() < 0.35:
+            c = rng.choice(case["chroms"])
+            bps = [b for b, _ in case["maps"][c]]
+            a = rng.choice(bps[:-1])
+            case["prelude"] = {"chr": c, "start": a, "end": rng.choice([x for x in bps if x > a][:2])}
         yield case
 
 
@@ -50,6 +58,12 @@ def impl(case):
     chroms = [case["region"]["chr"]] if case["region"] else case["chroms"]
     out = d / "out"
     tapes = None
+    if case.get("prelude"):
+        try:
+            pr = case["prelude"]
+            sg.simulate_gt(str(d / "model.dat"), str(d / "maps"), [pr["chr"]], pr, max(case["popsize"], 10), SD.silent_log(), 99)
+        except Exception:  # noqa: only what it leaves behind matters here
+            pass
     if case["via_cli"]:
         from click.testing import CliRunner
         from haptools.__main__ import main
@@ -223,7 +237,7 @@ def oracle(case, obs):
 
 
 def describe(case, obs):
-    return ["cli" if case["via_cli"] else "api", "region" if case["region"] else "whole", f"chroms={len(case['chroms']) if not case['region'] else 1}", f"samples={case['model'][0]}"]
+    return ["cli" if case["via_cli"] else "api", "after-a-region-run-on-the-same-maps" if case.get("prelude") else "first-run-on-these-maps", "region" if case["region"] else "whole", f"chroms={len(case['chroms']) if not case['region'] else 1}", f"samples={case['model'][0]}"]
 
 
 CHECK = Check(
@@ -244,7 +258,7 @@ CHECK = Check(
             setup=setup,
             teardown=teardown,
             nontrivial=lambda c, o: C.jdump(c) if isinstance(o, dict) and "lines" in o and len(o["lines"]) > 2 * c["model"][0] * (1 + (1 if c["region"] else len(c["chroms"]))) else None,
-            rule="the model/map/region generator of C01 (1-4 generation lines incl. zero fractions and pulses, 2-4 source populations, 1-4 chromosomes incl. X, 2-10 markers, optional region, 1-5 samples), through simulate_gt + write_breakpoints (every 3rd case through the `simgenotype --only_breakpoint` CLI, with --popsize values below, at and above twice the sample count); the .bp text is checked clause by clause (order of chromosomes, strictly increasing bp ends, sentinel, non-decreasing cM, labels subset of contributing populations, Sample_i_1/_2 framing), read with Breakpoints.load and karyogram.GetHaplotypeBlocks, and compared with the rendering of the recorded simulated haplotypes drawn by the recorded index tape; for instrumented runs the decoded tapes of all generations are run through Plan.simulateAll (the function C02.every_haplotype_tiles / cm_never_decreases / labels_are_sources are about) and the file must be the rendering of the model's final generation at the drawn indices; the map hypotheses of cm_never_decreases (events close at map markers) are checked on every recorded tape; non-trivial = some haplotype has a recombination breakpoint",
+            rule="the model/map/region generator of C01 (1-4 generation lines incl. zero fractions and pulses, 2-4 source populations, 1-4 chromosomes incl. X, 2-10 markers, optional region, 1-5 samples), through simulate_gt + write_breakpoints (a third of the whole-chromosome cases after an earlier --region simulation on the same map files in the same process; every 3rd case through the `simgenotype --only_breakpoint` CLI, with --popsize values below, at and above twice the sample count); the .bp text is checked clause by clause (order of chromosomes, strictly increasing bp ends, sentinel, non-decreasing cM, labels subset of contributing populations, Sample_i_1/_2 framing), read with Breakpoints.load and karyogram.GetHaplotypeBlocks, and compared with the rendering of the recorded simulated haplotypes drawn by the recorded index tape; for instrumented runs the decoded tapes of all generations are run through Plan.simulateAll (the function C02.every_haplotype_tiles / cm_never_decreases / labels_are_sources are about) and the file must be the rendering of the model's final generation at the drawn indices; the map hypotheses of cm_never_decreases (events close at map markers) are checked on every recorded tape; non-trivial = some haplotype has a recombination breakpoint",
         ),
     ],
     trusted=["np.random.choice(replace=False) returns distinct in-range indices; np.random.choice(p=fractions) never draws a population with fraction 0", "glob/re discovery of map files", "float repr of cM"],
